@@ -390,7 +390,7 @@ def prop_theorems(prop):
     return names
 
 
-def lean_obligations(prop, extra_modules=()):
+def lean_obligations(prop, extra_modules=(), extra_theorems=()):
     """build Props/<prop> (+ the driver handlers), hygiene grep, axiom audit.
     Returns dict(ok, build_ok, theorems, axioms, bad_axioms, hygiene, log)."""
     res = {"ok": False, "build_ok": False, "theorems": [], "axioms": {}, "bad_axioms": {}, "hygiene": [], "log": ""}
@@ -406,12 +406,14 @@ def lean_obligations(prop, extra_modules=()):
     res["hygiene"] = hygiene()
     if not res["build_ok"]:
         return res
-    names = prop_theorems(prop)
+    names = prop_theorems(prop) + [t for t in extra_theorems]
     res["theorems"] = names
     audit = os.path.join(LEAN_DIR, ".lake", f"audit_{prop}.lean")
     os.makedirs(os.path.dirname(audit), exist_ok=True)
     with open(audit, "w") as f:
         f.write(f"import PymotoVerif.Props.{prop}\n")
+        for m in extra_modules:
+            f.write(f"import {m}\n")
         for n in names:
             f.write(f"#print axioms {n}\n")
     p = subprocess.run(["lake", "env", "lean", audit], cwd=LEAN_DIR, capture_output=True, text=True, timeout=3000)
